@@ -10,7 +10,8 @@ the strings that are not NFC-stable): `a>b` joined by `,`, `~` = empty.
   U <text>                            unquote                       -> `<text>`
   P <nfc> <text>                      URL(text) and the render/re-parse chain
   B <nfc> <netlocSep> <v6> <scheme> <user> <pw> <host> <port|-> <parts> <query> <fragment>
-                                      a URL built from components, same chain
+                                      a URL built from components, same chain (`v6`: 1 = AF_INET6, 4 = AF_INET - the
+                                      family a parsed IPv4 literal has -, 0 = no family)
   S <B-arguments> ; <B-arguments> ... several URL objects alive at once (independent in the model): their chains
                                       joined by ` || `
   L <nfc> <withText> <defaultScheme> <schemes> <tail> <pre> <match> <pre> <match> ...
@@ -154,7 +155,7 @@ def handleB : List String → String
       | some port =>
         chain (mkEnv tbl)
           { scheme := scheme, netlocSep := ns = "1", username := user, password := pw,
-            family := if v6 = "1" then .inet6 else .none, host := host, port := port,
+            family := if v6 = "1" then .inet6 else if v6 = "4" then .inet else .none, host := host, port := port,
             pathParts := if parts.isEmpty then [[]] else parts, query := query, fragment := frag }
       | none => "bad-op"
     | _, _, _, _, _, _, _, _ => "bad-op"
